@@ -158,7 +158,7 @@ Aux:
 			case AmpAllowOtherKeys:
 				// ignore
 			default:
-				if !ss.Bound(Symbol(ad.Name)) {
+				if !boundByCall(ss, ad.Name) {
 					ss.Let(Symbol(ad.Name), evalDefault(ss, ad.Default, depth))
 				}
 			}
@@ -171,7 +171,7 @@ Aux:
 			case AmpAllowOtherKeys:
 				// ignore
 			default:
-				if !ss.Bound(Symbol(ad.Name)) {
+				if !boundByCall(ss, ad.Name) {
 					ss.Let(Symbol(ad.Name), ad.Default)
 				}
 			}
@@ -179,7 +179,7 @@ Aux:
 			asym := Symbol(ad.Name)
 			if AmpAux == asym {
 				mode = auxMode
-			} else if !ss.Bound(asym) {
+			} else if !boundByCall(ss, ad.Name) {
 				ss.Let(asym, evalDefault(ss, ad.Default, depth))
 			}
 		case auxMode:
@@ -192,6 +192,17 @@ Aux:
 		}
 	}
 	return lam.BoundCall(ss, depth)
+}
+
+// boundByCall returns true if the call itself bound the named parameter, that
+// is if an argument was provided for it. A variable of the same name in an
+// enclosing scope or in the current package does not count, the parameter then
+// still gets its default value.
+func boundByCall(s *Scope, name string) (has bool) {
+	s.locker.Lock()
+	_, has = s.Vars[strings.ToLower(name)]
+	s.locker.Unlock()
+	return
 }
 
 // evalDefault evaluates the default value form of an &optional or &key
